@@ -13,6 +13,7 @@ import (
 	"github.com/cosmos/cosmos-sdk/crypto/keys/secp256k1"
 	sdk "github.com/cosmos/cosmos-sdk/types"
 	authtypes "github.com/cosmos/cosmos-sdk/x/auth/types"
+	vestingtypes "github.com/cosmos/cosmos-sdk/x/auth/vesting/types"
 	banktypes "github.com/cosmos/cosmos-sdk/x/bank/types"
 	distrtypes "github.com/cosmos/cosmos-sdk/x/distribution/types"
 	govv1 "github.com/cosmos/cosmos-sdk/x/gov/types/v1"
@@ -686,6 +687,37 @@ func c14Refusals(spec c14Spec, res *core.CaseResult, verbose bool) {
 		try("plain-source-already-migrated", b2, s3, stranger.Hex(), w.sig(s3, stranger))
 		b3, _ := ctx.CacheContext()
 		try("plain-former-target-as-source", b3, t3.Acc(), stranger.Hex(), w.sig(t3.Acc(), stranger))
+	}
+	// a source that still holds locked (vesting) coins: all or nothing
+	{
+		ctx := c.Branch()
+		p4 := srcKey(spec.Seed, "src4")
+		s4 := sdk.AccAddress(p4.PubKey().Address())
+		t4 := chain.DeriveKey(spec.Seed, "tgt4", 0)
+		end := c.Time.Add(365 * 24 * time.Hour).Unix()
+		funder := c.Users[2]
+		if r := c.MsgOn(ctx, vestingtypes.NewMsgCreateVestingAccount(funder.Acc(), s4, sdk.NewCoins(chain.FXCoin(1000)), end, false)); r.OK() {
+			if acc4 := c.App.AccountKeeper.GetAccount(ctx, s4); acc4 != nil {
+				_ = acc4.SetPubKey(p4.PubKey())
+				c.App.AccountKeeper.SetAccount(ctx, acc4)
+			}
+			_ = c.App.BankKeeper.SendCoins(ctx, funder.Acc(), s4, sdk.NewCoins(chain.FXCoin(500)))
+			before := c.Dump(ctx)
+			rr := c.MsgOn(ctx, &migratetypes.MsgMigrateAccount{From: s4.String(), To: t4.Hex().Hex(), Signature: w.sig(s4, t4)})
+			res.Count("vesting_source_checks", 1)
+			left := c.App.BankKeeper.GetAllBalances(ctx, s4)
+			if verbose {
+				fmt.Printf("%-40s ok=%v left=%s %s\n", "source-with-locked-coins", rr.OK(), left, short(rr.ErrString()))
+			}
+			if rr.OK() && !left.IsZero() {
+				res.Violate("C14/source-not-empty/locked-coins", "migration of a source holding 1000 FX of locked and 500 FX of free coins succeeded and left %s with the source (target holds %s)", left, c.App.BankKeeper.GetAllBalances(ctx, t4.Acc()))
+			}
+			if !rr.OK() && len(chain.Diff(before, c.Dump(ctx))) > 0 {
+				res.Violate("C14/refusal-expected/source-with-locked-coins", "the migration was refused (%s) but state changed", short(rr.ErrString()))
+			}
+		} else if verbose {
+			fmt.Println("vesting account not created:", r.ErrString())
+		}
 	}
 }
 
